@@ -29,7 +29,9 @@ func newLayout(table tables.Layout) Layout {
 			Tag:    table.ScriptList.Records[i].Tag,
 		}
 	}
+	lookupCount := len(table.LookupList.Lookups)
 	for i, f := range table.FeatureList.Features {
+		sanitizeFeature(&f, lookupCount)
 		out.Features[i] = Feature{
 			Feature: f,
 			Tag:     table.FeatureList.Records[i].Tag,
@@ -37,8 +39,24 @@ func newLayout(table tables.Layout) Layout {
 	}
 	if table.FeatureVariations != nil {
 		out.FeatureVariations = table.FeatureVariations.FeatureVariationRecords
+		for _, rec := range out.FeatureVariations {
+			for i := range rec.Substitutions.Substitutions {
+				sanitizeFeature(&rec.Substitutions.Substitutions[i].AlternateFeature, lookupCount)
+			}
+		}
 	}
 	return out
+}
+
+// sanitizeFeature removes the invalid lookup indices
+func sanitizeFeature(feature *tables.Feature, lookupCount int) {
+	valid := feature.LookupListIndices[:0]
+	for _, index := range feature.LookupListIndices {
+		if int(index) < lookupCount {
+			valid = append(valid, index)
+		}
+	}
+	feature.LookupListIndices = valid
 }
 
 func sanitizeLangSys(langSys *tables.LangSys, featuresCount int) {
